@@ -110,7 +110,13 @@ def validate_sessions(c, sessions, label, max_fail=12):
 def run_sequences(c):
     """ApiSeq.tla: sequences of requests against one bug, with and without a user, judged step by step."""
     c.tlc_model("MC_ApiSeq", "MC_ApiSeq.cfg", timeout=900, label="every sequence of <= 4 requests (10 kinds x auth x arguments) on one bug")
-    scheds = seq_schedules(c, 45 if c.tier == "quick" else 1500)
+    def rq(name, auth=True, i=1, add=(), rem=()):
+        return {"name": name, "auth": auth, "i": i, "add": list(add), "rem": list(rem)}
+    fixed = {"reqs": [rq("editComment", i=3), rq("changeLabels", rem=["x"]), rq("setTitle", auth=False), rq("addCommentAndClose"), rq("addCommentAndReopen"),
+                      rq("changeLabels", add=["x", "y"]), rq("changeLabels", add=["x"], rem=["y"]), rq("editComment", i=2), rq("editComment", i=1), rq("closeBug"),
+                      rq("closeBug"), rq("openBug", auth=False), rq("openBug"), rq("setTitle"), rq("setTitleEmpty"), rq("unknownBug"), rq("addComment", auth=False),
+                      rq("addComment"), rq("changeLabels", rem=["x", "y"])]}
+    scheds = [fixed, fixed, fixed] + seq_schedules(c, 45 if c.tier == "quick" else 1500)     # the fixed one under each configured user
     sf, tf = os.path.join(c.scratch, "apiseq-s.ndjson"), os.path.join(c.scratch, "apiseq-t.ndjson")
     with open(sf, "w") as f:
         for s in scheds:
